@@ -447,3 +447,65 @@ def _proj_has(pl, owner_rx, field):
         if e[0] == "f" and len(e) > 4 and e[2] == field and e[4] and owner_rx.search(e[4]):
             return True
     return False
+
+
+def callee_names_of(t):
+    f = t["f"]
+    return [strip_generics(x) for x in (f.get("res"), f.get("def")) if x]
+
+
+def serde_schema(fx, adt_path):
+    """Wire schema of a #[derive(Serialize, Deserialize)] struct/enum recovered from the derived code's MIR:
+    {'fields': [(rust name, type)], 'de': {wire name: field index}, 'required': {wire}, 'ser_always': {wire}, 'ser_maybe': {wire}}"""
+    a = fx.adt(adt_path)
+    full = [k for k, v in fx.adts.items() if v is a][0]
+    out = {"fields": [(f["name"], f["ty"]) for f in a["variants"][0]["fields"]] if a["kind"] == "struct" else [],
+           "variants": [v["name"] for v in a["variants"]] if a["kind"] == "enum" else [],
+           "de": {}, "required": set(), "ser_always": set(), "ser_maybe": set()}
+    vis = [b for b in fx.bodies.values() if b.name.endswith("__FieldVisitor as " + b.name.split("__FieldVisitor as ")[-1]) and
+           (" for %s>::deserialize::__FieldVisitor" % full) in b.name and b.name.endswith("::visit_str") and b.kind != "promoted"]
+    if len(vis) != 1:
+        raise AnchorMissing("derived Deserialize field visitor of %s: %d candidates" % (adt_path, len(vis)))
+    for p in sym.Evaluator(fx, vis[0]).run():
+        if p.end != "return":
+            continue
+        r = sym.strip_after(p.ret)
+        m = re.search(r"__Field::__field(\d+)\{\}", show(r))
+        if not m:
+            continue
+        names = []
+        for at in p.atoms:
+            ab = sym.atom_bool(at)
+            if ab and ab[1] and ab[0][0] == "call" and "PartialEq" in ab[0][1]:
+                s = const_str(ab[0][2][1])
+                if s is not None:
+                    names.append(s)
+        if names:
+            out["de"][names[-1]] = int(m.group(1))
+    # fields whose absence is an error: derived visit_map calls missing_field("name") (serde(default) fields do not),
+    # and missing_field only fails for non-Option types
+    vm = [b for b in fx.bodies.values() if (" for %s>::deserialize::__Visitor" % full) in b.name and b.name.endswith("::visit_map") and b.kind != "promoted"]
+    missing = set()
+    for b in vm:
+        for blk in b.blocks:
+            t = blk["term"]
+            if t["k"] == "call" and any(n.endswith("missing_field") for n in callee_names_of(t)):
+                for o in t["ops"]:
+                    c = o.get("c")
+                    if c and "str" in c:
+                        missing.add(c["str"])
+    for w, i in out["de"].items():
+        if out["fields"] and i < len(out["fields"]) and not out["fields"][i][1].startswith("std::option::Option<") and (w in missing or not vm):
+            out["required"].add(w)
+    ser = [b for b in fx.bodies.values() if ("Serialize for %s>::serialize" % full) in b.name and b.name.endswith("::serialize") and b.kind != "promoted"]
+    if len(ser) == 1:
+        first = True
+        for p in sym.Evaluator(fx, ser[0]).run():
+            if p.end != "return" or has_call(p.ret, r"from_residual$"):
+                continue
+            ws = set(const_str(e[2][1]) for e in p.calls(r"serialize_field$"))
+            ws |= set(const_str(e[2][3]) for e in p.calls(r"serialize_unit_variant$") if len(e[2]) > 3)
+            out["ser_maybe"] |= ws
+            out["ser_always"] = set(ws) if first else (out["ser_always"] & ws)
+            first = False
+    return out
